@@ -396,7 +396,11 @@ def exec_history(case, out):
     # fresh-process oracle
     fresh_idx = set(range(len(steps))) if len(steps) <= 8 else {len(steps) - 1} | {(pick // (7 + k)) % len(steps) for k in range(6)}
     for idx in sorted(fresh_idx):
-        fresh = fresh_call("fv.props.c14", "fresh_eval", case, idx)
+        try:
+            fresh = fresh_call("fv.props.c14", "fresh_eval", case, idx)
+        except TimeoutError:
+            out.label("fresh-eval-timeout-inconclusive")  # an overloaded machine is not a verdict
+            continue
         out.label("fresh-eval")
         if not same(fresh, results[idx]):
             out.add(("history-dependent", "vs-fresh-process", steps[idx]["op"]), f"step {idx} ({steps[idx]}) returned {brief(results[idx])} after the "
